@@ -53,7 +53,7 @@ def engine_a(rep, tier, seed, cov):
     rng = core.stream(core.run_seed(seed, "c21a", 0), "fault")
     wls = ["cl_mgvi", "cl_geovi", "cl_map", "cl_multi_lh", "cl_multi_lh_geovi", "jax_vi", "draws",
            "cl_cfm", "cl_odir_latest", "cl_odir_all", "jax_cfm", "jax_odir", "jax_defaults"]
-    nhs, nparam = (5, 1) if tier == "quick" else (8, 4)
+    nhs, nparam = (4, 1) if tier == "quick" else (8, 4)
     jobs = []
     for wl in wls:
         for pi in range(nparam):
